@@ -49,7 +49,21 @@ def seg(n):
 def rel_import(D, f, t):
     files = D["files"]
     tp = files[t]["path"] if t < len(files) else "missing%d.pg" % t
-    return os.path.relpath(tp, os.path.dirname(files[f]["path"]) or ".")
+    here = os.path.dirname(files[f]["path"])
+    rel = os.path.relpath(tp, here or ".")
+    # non-canonical spellings of the same file (the loader must recognise a file it has seen)
+    style = D.get("spell", {}).get("%d:%d" % (f, t), 0)
+    if style == 1:
+        return "./" + rel
+    if style == 2:
+        if here:
+            # from a/x.pg: '../a/<rel>'
+            return os.path.join("..", os.path.basename(here), rel)
+        d = os.path.dirname(tp)
+        if d:
+            return os.path.join(d, "..", rel)            # 'sub/../sub/m.pg'
+        return "./" + rel
+    return rel
 
 
 def print_file(D, f):
@@ -445,6 +459,8 @@ def _worker(job):
 
 # ------------------------------------------------------------------ generator
 FILE_NAMES = ["root.pg", "l.pg", "r.pg", "base.pg", "sub/m.pg"]
+FILE_LAYOUTS = [FILE_NAMES, FILE_NAMES, ["root.pg", "sub/l.pg", "r.pg", "lib/base.pg", "sub/m.pg"],
+                ["root.pg", "l.pg", "sub/r.pg", "sub/base.pg", "m.pg"]]
 NT_POOL = ["A", "B", "C"]
 
 
@@ -502,8 +518,15 @@ def reachable_paths(D, f, maxlen):
 def gen_dir(rng, tier):
     n = rng.choice([2, 3, 3, 4, 4, 4] if tier == "quick" else [2, 3, 3, 4, 4, 4, 5])
     shape, E = gen_shape(rng, n)
-    files = [{"path": FILE_NAMES[i], "imports": [], "prods": [], "terms": []} for i in range(n)]
-    D = {"files": files, "shape": shape, "tags": []}
+    names = rng.choice(FILE_LAYOUTS)
+    files = [{"path": names[i], "imports": [], "prods": [], "terms": []} for i in range(n)]
+    D = {"files": files, "shape": shape, "tags": [], "spell": {}}
+    if rng.random() < 0.4:
+        # the same file is spelled differently by different importers
+        for (a, b) in E:
+            if rng.random() < 0.6:
+                D["spell"]["%d:%d" % (a, b)] = rng.choice([1, 2, 2])
+        D["tags"].append("spelled")
     use_alias = rng.random() < 0.5
     for (a, b) in E:
         base = os.path.splitext(os.path.basename(files[b]["path"]))[0]
